@@ -45,6 +45,7 @@ type cfg struct {
 	comp     bool   // compounding withdrawal credentials (v1.10+)
 	noverify bool   // dkg --no-verify: Run does not verify the lock it built
 	sched    uint64 // start order, start delays, network
+	km       string // keymanager mode: one letter per node (a accept, u 401, e 500, f fails once), "" = keystores on disk
 }
 
 var testNetworks = []eth2util.Network{eth2util.Goerli, eth2util.Sepolia, eth2util.Hoodi, eth2util.Gnosis, eth2util.Chiado}
@@ -98,6 +99,8 @@ type cer struct {
 	fee   []string // fee recipient per validator
 	gas   uint64
 	errs  []error
+	kms   []*kmServer // keymanager mode: the keymanager of every node (of the last attempt)
+	failedDir string // node directories of a failed last attempt (removed by cleanup)
 	dir   string // artifacts of the ceremony and of later generations (removed with the ceremony)
 
 	// artifacts as loaded with the repo's loaders
@@ -206,6 +209,13 @@ func (ce *cer) runOnce(timeout time.Duration) (string, []error) {
 	for i := range delays {
 		delays[i] = time.Duration(rng.Intn(120)) * time.Millisecond
 	}
+	for _, k := range ce.kms {
+		k.srv.Close()
+	}
+	ce.kms = nil
+	for i := 0; i < len(c.km); i++ {
+		ce.kms = append(ce.kms, newKMServer(c.km[i]))
+	}
 	var wg sync.WaitGroup
 	for _, i := range order {
 		conf := dkg.Config{
@@ -222,6 +232,10 @@ func (ce *cer) runOnce(timeout time.Duration) (string, []error) {
 				SyncOpts:        []func(*dkgsync.Client){dkgsync.WithPeriod(50 * time.Millisecond)},
 			},
 			Timeout: timeout,
+		}
+		if i < len(ce.kms) {
+			conf.KeymanagerAddr = ce.kms[i].srv.URL
+			conf.KeymanagerAuthToken = kmToken
 		}
 		hx.Must(os.MkdirAll(conf.DataDir, 0o755))
 		hx.Must(k1util.Save(ce.keys[i], p2p.KeyPath(conf.DataDir)))
@@ -296,6 +310,10 @@ func timeoutClass(errs []error) bool {
 // networking (bad threshold, bad amounts) is not retried.
 func (ce *cer) run() {
 	for attempt, to := range []time.Duration{8 * time.Second, 25 * time.Second} {
+		if ce.failedDir != "" {
+			_ = os.RemoveAll(ce.failedDir)
+			ce.failedDir = ""
+		}
 		dir, errs := ce.runOnce(to)
 		ce.errs = errs
 		if allNil(errs) {
@@ -304,7 +322,7 @@ func (ce *cer) run() {
 			ce.ok = true
 			return
 		}
-		_ = os.RemoveAll(dir)
+		ce.failedDir = dir
 		if !timeoutClass(errs) || attempt == 1 {
 			return
 		}
@@ -319,7 +337,18 @@ func b01(b bool) string {
 }
 
 func (ce *cer) cleanup() {
-	if ce != nil && ce.dir != "" {
+	if ce == nil {
+		return
+	}
+	for _, k := range ce.kms {
+		k.srv.Close()
+	}
+	ce.kms = nil
+	if ce.failedDir != "" {
+		_ = os.RemoveAll(ce.failedDir)
+		ce.failedDir = ""
+	}
+	if ce.dir != "" {
 		_ = os.RemoveAll(ce.dir)
 		ce.dir = ""
 	}
